@@ -53,3 +53,21 @@ Example C18_nonvacuous :
   Forall id_in_contract [(1%N, 0%N)] /\
   accept (FAnd [FNot (FOr [FAll]); mk_nsname [(1%N, 0%N)]; mk_labels [(1%N, 1%N)]]) o = true.
 Proof. split; [repeat constructor; intros [H _]; discriminate | reflexivity]. Qed.
+
+(* nsname/nsname.go, the textual form of the identities NSName filters are
+   built from (NSName.v): Parse and String are inverse exactly on names
+   without '/', and Parse accepts exactly the strings with one '/' *)
+From KC Require Import NSName.
+
+Theorem C18_nsname_parse_string : forall a b, no_slash a -> no_slash b -> ns_parse (ns_string (a, b)) = Some (a, b).
+Proof. exact parse_to_string. Qed.
+Print Assumptions C18_nsname_parse_string.
+
+Theorem C18_nsname_parse_sound : forall s a b,
+  ns_parse s = Some (a, b) -> ns_string (a, b) = s /\ no_slash a /\ no_slash b.
+Proof. exact parse_sound. Qed.
+Print Assumptions C18_nsname_parse_sound.
+
+Theorem C18_nsname_parse_accepts_iff : forall s, (exists n, ns_parse s = Some n) <-> slashes s = 1.
+Proof. exact parse_accepts_iff. Qed.
+Print Assumptions C18_nsname_parse_accepts_iff.
